@@ -14,6 +14,7 @@ import (
 	"os/exec"
 	"path/filepath"
 	"runtime"
+	"runtime/debug"
 	"sort"
 	"strconv"
 	"strings"
@@ -330,7 +331,44 @@ func (c *Ctx) Floor(n int) {
 //-----------------------------------------------------------------------------
 // parallel helper
 
+// theCtx is the context of the running check (for libraryPanic).
+var theCtx *Ctx
+
+// libraryPanic is deferred around workload code that calls the library outside a child process. A panic raised inside
+// the library (the innermost non-runtime frame belongs to it) on a workload item is a finding about that item, not a
+// reason to lose the run: it becomes a violation and the workload goes on. A panic raised by harness code is a harness
+// bug and is passed on.
+func libraryPanic(what string) {
+	r := recover()
+	if r == nil {
+		return
+	}
+	st := string(debug.Stack())
+	var frames []string
+	for _, l := range strings.Split(st, "\n") {
+		if l == "" || l[0] == '\t' || strings.HasPrefix(l, "goroutine ") {
+			continue
+		}
+		if strings.HasPrefix(l, "runtime.") || strings.HasPrefix(l, "runtime/debug.") || strings.HasPrefix(l, "panic(") || strings.HasPrefix(l, "main.libraryPanic") {
+			continue
+		}
+		frames = append(frames, l)
+	}
+	if theCtx == nil || len(frames) == 0 || !strings.HasPrefix(frames[0], "github.com/deadsy/sdfx/") {
+		panic(r)
+	}
+	if len(frames) > 8 {
+		frames = frames[:8]
+	}
+	theCtx.Violate("", fmt.Sprintf("library-panic %q in %s%s", fmt.Sprint(r), frames[0], what), map[string]any{"panic": fmt.Sprint(r), "frames": frames})
+}
+
 func parallelFor(n int, fn func(i int)) {
+	fn0 := fn
+	fn = func(i int) {
+		defer libraryPanic(fmt.Sprintf(" (workload item %d)", i))
+		fn0(i)
+	}
 	w := runtime.GOMAXPROCS(0)
 	if w > n {
 		w = n
